@@ -90,7 +90,10 @@ public:
         T const err_all = result.error();
         T const rel_err_all = err_all / fabs(val_all);
 
-        bool const perform_more_iterations = rel_err_all > target_rel_err_;
+        // without a target never stop; otherwise stop as soon as the relative error is not larger
+        // than the target (a NaN error never is)
+        bool const perform_more_iterations = !((target_rel_err_ > T()) &&
+            (rel_err_all <= target_rel_err_));
 
         if ((mode_ == callback_mode::verbose) || (mode_ == callback_mode::verbose_and_write_chkpt))
         {
